@@ -287,31 +287,34 @@ def _run_machine(case):
                 raise RuntimeError("no quiescence")
 
             out = []
-            for op in case["ops"]:
-                mark = len(events)
-                if op[0] == "start":
-                    pc.start(); settle()
-                elif op[0] == "stop":
-                    pc.stop(); settle()
-                elif op[0] == "sleep":
-                    lp._vtime += op[1]
-                elif op[0] == "fire":
-                    ts = lp.live_timers()
-                    if ts:
-                        lp._vtime = max(lp._vtime, ts[0])
-                        settle()
-                elif op[0] == "complete":
-                    if op[1] < len(inflight):
-                        inv, fut = inflight.pop(op[1])
-                        if op[2]:
-                            fut.set_result(None)
-                        else:
-                            fut.set_exception(ValueError("late boom"))
-                        settle()
-                evs = events[mark:]
-                out.append({"evs": evs, "running": pc.is_running(), "timers": [_h(t) for t in lp.live_timers()],
-                            "inflight": [i for i, _ in inflight]})
-            return {"ops": out, "updates": updates}
+            try:
+                for op in case["ops"]:
+                    mark = len(events)
+                    if op[0] == "start":
+                        pc.start(); settle()
+                    elif op[0] == "stop":
+                        pc.stop(); settle()
+                    elif op[0] == "sleep":
+                        lp._vtime += op[1]
+                    elif op[0] == "fire":
+                        ts = lp.live_timers()
+                        if ts:
+                            lp._vtime = max(lp._vtime, ts[0])
+                            settle()
+                    elif op[0] == "complete":
+                        if op[1] < len(inflight):
+                            inv, fut = inflight.pop(op[1])
+                            if op[2]:
+                                fut.set_result(None)
+                            else:
+                                fut.set_exception(ValueError("late boom"))
+                            settle()
+                    evs = events[mark:]
+                    out.append({"evs": evs, "running": pc.is_running(), "timers": [_h(t) for t in lp.live_timers()],
+                                "inflight": [i for i, _ in inflight]})
+                return {"ops": out, "updates": updates}
+            finally:
+                pc.stop()      # a broken scheduler must not keep re-arming itself during loop teardown
     finally:
         logger.handlers, logger.propagate = old_handlers, old_prop
         logger.setLevel(old_level)
